@@ -159,14 +159,18 @@ func (e *Engine) runOnce(t *testing.T, tape *simrt.Tape, keep bool) (*simrt.Sim,
 	return s, info
 }
 
+// hasOracle looks for a failure of the given oracle that is not a listed known
+// finding (so that shrinking cannot turn a new violation into a known one).
 func hasOracle(s *simrt.Sim, oracle string) (simrt.Failure, bool) {
 	for _, f := range s.Failures {
-		if f.Oracle == oracle {
+		if f.Oracle == oracle && activeKnown.find(f) == nil {
 			return f, true
 		}
 	}
 	return simrt.Failure{}, false
 }
+
+var activeKnown knownSet
 
 // shrink minimises a failing tape while the same oracle keeps failing.
 func (e *Engine) shrink(t *testing.T, vals []uint32, oracle string, budget time.Duration) ([]uint32, int) {
@@ -291,6 +295,7 @@ func WorkerMain(t *testing.T) {
 	}
 
 	known := loadKnown(os.Getenv("VERIF_KNOWN"))
+	activeKnown = known
 	base := uint64(envInt("VERIF_SEED", 1))
 	nworkers := envInt("VERIF_NWORKERS", 1)
 	maxRuns := envInt("VERIF_RUNS", 1000)
